@@ -183,17 +183,27 @@ func (c *ctx) pubsubRound(r *vlib.Rand, round int) {
 	}
 	// R and B get topic handles the harness owns, so that plain messages can be published
 	// from their hosts as well
-	tR, cancelR, err := gossiptopic.MakeTopic(e.hR, topic)
-	if err != nil {
-		panic(err)
+	// ... in even rounds; in odd rounds R creates and owns its topic (NewReceiver's own path,
+	// closed again by Receiver.Close)
+	var tR *pubsub.Topic
+	if round%2 == 0 {
+		var cancelR context.CancelFunc
+		tR, cancelR, err = gossiptopic.MakeTopic(e.hR, topic)
+		if err != nil {
+			panic(err)
+		}
+		defer cancelR()
 	}
-	defer cancelR()
 	tB, cancelB, err := gossiptopic.MakeTopic(e.hB, topic)
 	if err != nil {
 		panic(err)
 	}
 	defer cancelB()
-	e.R, err = announce.NewReceiver(e.hR, "", announce.WithTopic(tR), announce.WithResend(true), announce.WithFilterIPs(e.filterR))
+	if tR != nil {
+		e.R, err = announce.NewReceiver(e.hR, "", announce.WithTopic(tR), announce.WithResend(true), announce.WithFilterIPs(e.filterR))
+	} else {
+		e.R, err = announce.NewReceiver(e.hR, topic, announce.WithResend(true), announce.WithFilterIPs(e.filterR))
+	}
 	if err != nil {
 		panic(err)
 	}
@@ -208,6 +218,17 @@ func (c *ctx) pubsubRound(r *vlib.Rand, round int) {
 		panic(err)
 	}
 	defer e.B.Close()
+	func() {
+		defer func() {
+			if x := recover(); x != nil {
+				c.Count("obs-receiver-topicname-panics")
+			}
+		}()
+		// TopicName is not part of the property: exercised, differences only counted
+		if e.R.TopicName() != topic || e.B.TopicName() != topic {
+			c.Count("obs-receiver-topicname-differs")
+		}
+	}()
 	ctx, cancel := context.WithTimeout(context.Background(), 30*time.Second)
 	defer cancel()
 	for _, pr := range [][2]host.Host{{e.hP, e.hR}, {e.hP, e.hB}, {e.hR, e.hB}} {
@@ -432,6 +453,9 @@ func (c *ctx) pubsubRound(r *vlib.Rand, round int) {
 		c.Eval()
 		// now a plain message: from R's host after origin 3, from B's own host after origin 5
 		from, tp := idR, tR
+		if tR == nil {
+			from, tp = idP, e.topicP
+		}
 		if origin == 5 {
 			from, tp = idB, tB
 		}
@@ -581,6 +605,24 @@ func (c *ctx) pubsubRound(r *vlib.Rand, round int) {
 		}
 	}
 
+	// Close while B's watcher is pending on a full slot: the watcher leaves through ErrClosed
+	{
+		_, x1 := fresh()
+		_, x2 := fresh()
+		_ = e.sender.Send(ctx, message.Message{Cid: x1, ExtraData: []byte("cl1")})
+		time.Sleep(100 * time.Millisecond)
+		_ = e.sender.Send(ctx, message.Message{Cid: x2, ExtraData: []byte("cl2")})
+		time.Sleep(150 * time.Millisecond)
+		done := make(chan error, 1)
+		go func() { done <- e.B.Close() }()
+		c.Eval()
+		c.Count("pubsub:close-with-pending-watcher")
+		select {
+		case <-done:
+		case <-time.After(5 * time.Second):
+			fail("close-with-pending-watcher:hung", "B.Close() did not return while its watcher was pending on a full out slot")
+		}
+	}
 	if len(e.histB) > 6 {
 		c.Nontrivial(fmt.Sprintf("pubsub-round:%d:%d", round, len(e.histB)))
 	}
